@@ -266,6 +266,9 @@ class StmtMixin:
         from . import models
 
         v = self.deopt(v, st, node)
+        if v.is_py and isinstance(v.py, tuple) and len(v.py) == 3 and v.py[0] == "genexp":
+            # `for x in (f(y) for y in ys):` -- the generator is consumed whole, in order: the list comprehension
+            return self.iter_info(models.materialize(self, v), st, node, positions)
         if v.is_py and isinstance(v.py, tuple) and len(v.py) == 3 and v.py[0] == "iterinfo":
             return self.need_positions(v.py[1], st) if positions else v.py[1]
         if v.is_py and isinstance(v.py, (list, tuple, range, set, frozenset, dict, str)):
@@ -481,7 +484,7 @@ class StmtMixin:
             if acc is None:
                 acc = {"list": Val(PYOBJ, None, [], True), "set": Val(PYOBJ, None, set(), True), "dict": Val(PYOBJ, None, {}, True)}[kind]
             return acc
-        if kind != "set":
+        if kind not in ("set", "dict"):
             raise Unsupported(f"{kind} comprehension with several `for` clauses over a symbolic outer iterable", node)
         sub = st.copy()
         qvars, guards, pushed = [], [], 0
@@ -528,7 +531,11 @@ class StmtMixin:
                     cv = z3bool(cv)
                     sub.pc.append(cv)
                     guards.append(cv)
-            elt = models._item_val(self.eval(node.elt, sub))
+            if kind == "dict":
+                elt = models._item_val(self.eval(node.key, sub))
+                val = models._item_val(self.eval(node.value, sub))
+            else:
+                elt = models._item_val(self.eval(node.elt, sub))
         finally:
             for _ in range(pushed):
                 self.qstack.pop()
@@ -536,6 +543,25 @@ class StmtMixin:
                 self.qnames.pop()
         y = fresh(elt.ty, "img")
         passing = z3.And(*guards)
+        if kind == "dict":
+            # {k: v for a in A for b in B(a)} over symbolic iterables: an UNDER-specification that holds of the real result --
+            # the domain is exactly the set of produced keys; the value stored under a key is the value of SOME binding that
+            # produces this key (Python keeps the LAST one in iteration order; which one is left open)
+            want = getattr(self, "_assign_want", None)
+            vt = want.v if isinstance(want, T.Dict) else val.ty
+            kt = want.k if isinstance(want, T.Dict) else elt.ty
+            if vt is PYOBJ or kt is PYOBJ:
+                raise Unsupported("dict comprehension with several `for` clauses: key / value of unknown type (declare the local's type)", node)
+            dt = T.Dict(kt, vt)
+            r = fresh(dt, "mdict")
+            ds = dt.sort()
+            kk, vv = lift(elt, kt), lift(val, vt)
+            st.assume(z3.ForAll([y], z3.Select(ds.dom(r), y) == z3.Exists(qvars, z3.And(passing, kk == y))))
+            st.assume(z3.ForAll([y], z3.Implies(z3.Select(ds.dom(r), y), z3.Exists(qvars, z3.And(passing, kk == y, vv == z3.Select(ds.map(r), y)))),
+                                patterns=[z3.Select(ds.map(r), y)]))
+            models.dict_wf(st, dt, r, self)
+            self.assumptions_used.add("python-container-semantics")
+            return Val(dt, r)
         dom = z3.Lambda([y], z3.Exists(qvars, z3.And(passing, lift(elt) == y)))
         st.assume((dom == z3.K(elt.ty.sort(), z3.BoolVal(False))) == z3.Not(z3.Exists(qvars, passing)))
         return Val(T.Set(elt.ty), dom)
@@ -1137,7 +1163,7 @@ class StmtMixin:
     def s_Assign(self, node, st):
         want = None
         if len(node.targets) == 1 and isinstance(node.targets[0], ast.Name) and self.c:
-            want = self.c.locals.get(node.targets[0].id)
+            want = self.local_type(node.targets[0].id, node)
         save = getattr(self, "_assign_want", None)
         self._assign_want = want
         try:
@@ -1146,9 +1172,50 @@ class StmtMixin:
             self._assign_want = save
         for t in node.targets:
             self.assign_target(t, v, st, node)
-        self.note_alias(node.value, node.targets, st)
+        if not self.note_store_alias(node, v, st):
+            self.note_alias(node.value, node.targets, st)
         self.note_heap_alias(node, v, st)
         return [(st, Outcome("normal"))]
+
+    def local_type(self, name, node=None):
+        """declared type of a local: `locals={"x": T}`; a name that holds values of two types in one function is declared per
+        assignment statement as `"x@L<line>": T2` (the line of the assignment in the source file), which wins at that statement"""
+        if not self.c:
+            return None
+        ln = getattr(node, "lineno", None)
+        if ln is not None:
+            t = self.c.locals.get(f"{name}@L{ln}")
+            if t is not None:
+                return t
+        return self.c.locals.get(name)
+
+    def note_store_alias(self, node, v, st) -> bool:
+        """`obj.field = x` where x is a local / parameter holding a MUTABLE container: Python stores the same object, so whatever
+        later mutates `obj.field` in place (a method model, a callee with `modifies=["C.field"]`) mutates x too, and vice versa.
+        x becomes a LINK to the field (the mirror image of `x = obj.field`): it is read and mutated through the field from here
+        on.  For a parameter this makes the mutation visible to the caller: the parameter counts as mutated (frame obligation
+        unless it is listed in `modifies`) and its final value is the field's.  -> True when the link was made."""
+        if (len(node.targets) != 1 or not isinstance(node.targets[0], ast.Attribute) or not isinstance(node.value, ast.Name) or self.spec_mode
+                or not self.is_mutable_container(v)):
+            return False
+        name = node.value.id
+        if name not in st.env or ("link", name) in st.ghost or name in st.escaped or name in getattr(self.c, "alias_ok", ()):
+            return False
+        t = node.targets[0]
+        recv = self.eval(t.value, st)
+        if recv.is_py or not isinstance(recv.ty, T.Ref):
+            return False
+        cs = self.class_of(recv.ty)
+        ft = cs.fields.get(t.attr)
+        if not isinstance(ft, (T.List, T.Set, T.Dict)) or (not v.is_py and ft != v.ty):
+            return False  # (a coerced / dynamic store: no common term to share; the value-semantics guard applies)
+        if v.is_py:
+            st.env[name] = coerce(v, ft)  # `s = set(); obj.field = s`: from here on s is the field's (typed) container
+        st.ghost[("link", name)] = (recv, cs.name, t.attr)
+        if name in getattr(self, "_params", ()) and name not in st.rebound:
+            st.mutated.add(name)
+            st.ghost[("store_link", name)] = True
+        return True
 
     def note_heap_alias(self, node, v, st):
         """`x = obj.field` / `x = d[k]` where the value is a MUTABLE container: Python binds x to the same object.
@@ -1218,14 +1285,20 @@ class StmtMixin:
 
     def assign_target(self, t, v: Val, st, node, mutate=False):
         if isinstance(t, ast.Name):
-            want = self.c.locals.get(t.id) if self.c else None
+            want = self.local_type(t.id, node)
             if want is not None and not (v.ty is PYOBJ and v.is_py and not isinstance(v.py, ops._CT)):
-                v = coerce(v, want)
+                try:
+                    v = coerce(v, want)
+                except AttributeError as e:  # (a python-level value of another shape: `result = []` for a local declared Dict)
+                    raise ContractMisfit(f"local '{t.id}' is declared {want} but assigned {type(v.py).__name__ if v.is_py else v.ty} at line {getattr(node, 'lineno', '?')} "
+                                         f"(one name, two types: declare the second as \"{t.id}@L<line of the assignment>\"): {e}")
             lk = st.ghost.get(("link", t.id))
             if lk is not None:
                 if mutate:
                     self.write_field(st, lk[0], lk[2], v, node, mutate=True)  # write through to the aliased field
                     return
+                if st.ghost.get(("store_link", t.id)):
+                    raise Unsupported(f"parameter '{t.id}' is re-bound after it was stored into a field (the caller's object stays aliased by the field)", node)
                 del st.ghost[("link", t.id)]  # re-bound: no longer an alias
             if not mutate and t.id in getattr(self, "_params", ()) and t.id not in st.rebound and ("param_final", t.id) not in st.ghost:
                 st.ghost[("param_final", t.id)] = st.env.get(t.id)  # the caller-visible final value of a re-bound parameter
